@@ -237,6 +237,8 @@ def build(scene, state=None, assemble=True, options=None, names=None, extra=None
         kind, idx = lw["on"]
         sub = B.tpis[idx] if kind == "tpi" else B.joints[idx]
         name = nm("law", k, f"law{k}")
+        if state is not None and k in state.get("l_ref", {}):
+            lw = dict(lw, l_ref=state["l_ref"][k])
         if lw["type"] == "spring":
             c = Spring(sub, k=lw["k"], l_ref=lw.get("l_ref"), compliance_form=lw.get("compliance", False), name=name)
         elif lw["type"] == "kv":
